@@ -198,10 +198,24 @@ def static_analysis(ctx):
     ctx.obligation('translator-output-compiles:GenC20 parts(%d)' % len(parts), okparts, '\n'.join(o[-600:] for ok, o in rs if not ok))
     verdicts = {}
     if okparts:
-        ctx.compile_tie('GenC20', master, [['C20_TieA']], timeout=900)
+        ok, out = ctx.coqc('GenC20', master, 600)
+        ctx.obligation('translator-output-compiles:GenC20', ok, out[-1500:])
+        okparts = ok
+    if okparts:
+        # the committed tie file and the verdict evaluation are compiled side by side
         pre = 'From Coq Require Import List NArith.\nFrom OdakV Require Import C20.Model.\nFrom Run Require Import GenC20.\nImport ListNotations.'
-        vals = ctx.coq_eval(pre, ['map (fun f => (f_id f, fn_blame f)) (filter (fun f => negb (fn_ok f)) all_fns)', 'length all_fns'],
-                            label='verdicts', chunk=2, timeout=900)
+        terms = ['map (fun f => (f_id f, fn_blame f)) (filter (fun f => negb (fn_ok f)) all_fns)', 'length all_fns']
+        ev = '\n'.join(['Set Printing Width 1000000.', 'Set Printing Depth 1000000.', pre] + ['Eval vm_compute in (%s).' % t for t in terms]) + '\n'
+        tie = open(os.path.join(common.COQ, 'tie', 'C20_TieA.v')).read()
+        (okt, outt), (oke, oute) = ctx.coqc_many([('C20_TieA', tie), ('verdicts_0', ev)], timeout=900)
+        ctx.obligation('tie:C20_TieA', okt, outt[-2500:])
+        if okt:
+            closed = outt.count('Closed under the global context')
+            ctx.obligation('tie-axioms:C20_TieA', closed == 2, 'Print Assumptions output: %s' % outt[-600:])
+        vals = common.parse_evals(oute) if oke else []
+        ctx.obligation('coq-eval:verdicts', oke and len(vals) == 2, oute[-1500:])
+        if len(vals) != 2:
+            vals = [None, None]
         if vals[0] is not None:
             body = vals[0]
             rej = {}
@@ -358,7 +372,7 @@ def run(ctx):
     else:
         fast = [t for t in FAST_TESTS if t in alltests]
         ctx.rng.shuffle(fast)
-        tests, timeout = fast[:30], 60
+        tests, timeout = fast[:22], 45
     seen2 = run_corpus(ctx, tests, timeout)
     ctx.log('test-corpus oracle: %d test files, %d snapshotted calls of %d functions in %.1fs'
             % (len(tests), ctx.extra['corpus']['snapshotted_calls'], len(seen2), time.time() - t0))
